@@ -7,8 +7,11 @@ use crate::sx::{read_one, write_char, write_string, Sx};
 
 pub const NSTR: usize = 5;
 
-/// palette: simple lower-casing and Unicode simple case folding coincide on all of these
-const CHARS: [char; 38] = [
+/// palette: 1- to 4-byte characters; case pairs of equal and of different UTF-8 width; characters
+/// whose case folding is not their lower-case form (final sigma, long s, micro sign, beta
+/// symbol), that fold to two characters (sharp s, ff ligature), or that do not fold at all
+/// although their case mappings suggest it (dotless i, dotted capital I)
+const CHARS: [char; 56] = [
     'a', 'Z', 'm', '0', '9', ' ', '~', '(', // 1 byte
     'é', 'É', 'λ', 'Λ', 'ñ', 'Ж', 'ж', 'ö', // 2 bytes
     '日', '本', '€', '★', 'ᄀ', // 3 bytes
@@ -16,6 +19,25 @@ const CHARS: [char; 38] = [
     'b', 'B', 'z', 'A',
     // case pairs whose two forms have different UTF-8 widths
     '\u{212A}', 'k', '\u{212B}', 'å', '\u{2126}', 'ω', '\u{023A}', '\u{2C65}',
+    // folding differs from lower-casing
+    'σ', 'ς', 'Σ', 's', 'S', 'ſ', 'μ', 'µ', 'β', 'ϐ', 'ß', 'ẞ', 'ﬀ', 'f', 'i', 'I', 'ı', 'İ',
+];
+
+/// characters that are case variants of one another (used to build interesting operands only;
+/// the oracle is the reference machine's Unicode table)
+const FOLD_CLASSES: [&[char]; 12] = [
+    &['σ', 'ς', 'Σ'],
+    &['s', 'S', 'ſ'],
+    &['μ', 'µ', 'Μ'],
+    &['β', 'ϐ', 'Β'],
+    &['k', 'K', '\u{212A}'],
+    &['å', 'Å', '\u{212B}'],
+    &['ω', 'Ω', '\u{2126}'],
+    &['ß', 'ẞ'],
+    &['i', 'I', 'ı', 'İ'],
+    &['a', 'A'],
+    &['é', 'É'],
+    &['\u{023A}', '\u{2C65}'],
 ];
 
 const MARKERS: [char; 12] = ['①', '②', '③', '④', '⑤', '⑥', '⑦', '⑧', '⑨', '⑩', '⑪', '⑫'];
@@ -62,6 +84,45 @@ impl<'a> G15<'a> {
 
     fn rand_char(&mut self) -> char {
         CHARS[self.rng.usize(CHARS.len())]
+    }
+
+    /// the text with every character replaced by a random member of its case class
+    fn fold_variant(&mut self, t: &str) -> String {
+        let mut out = String::new();
+        for c in t.chars() {
+            match FOLD_CLASSES.iter().find(|cl| cl.contains(&c)) {
+                Some(cl) => {
+                    if c == 'ß' && self.rng.chance(1, 3) {
+                        out.push_str("ss");
+                    } else {
+                        out.push(cl[self.rng.usize(cl.len())]);
+                    }
+                }
+                None => out.push(c),
+            }
+        }
+        out
+    }
+
+    /// a character near a boundary of the Unicode properties the predicates test, or any scalar
+    fn property_char(&mut self) -> char {
+        const EDGE: [u32; 44] = [
+            0x08, 0x09, 0x0A, 0x0B, 0x0C, 0x0D, 0x0E, 0x1C, 0x1F, 0x20, 0x21, 0x2F, 0x30, 0x39, 0x3A, 0x40, 0x41, 0x5A, 0x5B, 0x60,
+            0x61, 0x7A, 0x7B, 0x7F, 0x85, 0xA0, 0xAA, 0xB2, 0xB5, 0xBD, 0xC0, 0xD7, 0xDF, 0x660, 0x1680, 0x2000, 0x200A, 0x200B,
+            0x2028, 0x202F, 0x205F, 0x2160, 0x3000, 0xFF11,
+        ];
+        loop {
+            let u = if self.rng.chance(2, 3) {
+                EDGE[self.rng.usize(EDGE.len())]
+            } else if self.rng.chance(1, 2) {
+                self.rng.range(0, 0x250) as u32
+            } else {
+                self.rng.range(0, 0x10FFFF) as u32
+            };
+            if let Some(c) = char::from_u32(u) {
+                return c;
+            }
+        }
     }
 
     fn rand_text(&mut self, max: usize) -> String {
@@ -237,7 +298,13 @@ impl<'a> G15<'a> {
             16 | 17 | 18 => {
                 let n = 2 + self.rng.usize(2);
                 let mut args: Vec<String> = (0..n).map(|_| self.string_arg().0).collect();
-                if self.rng.chance(1, 3) {
+                if self.rng.chance(1, 4) {
+                    // two literals that are equal up to the case class of each character
+                    let t = self.rand_text(4);
+                    let v = self.fold_variant(&t);
+                    args[0] = str_lit(&t);
+                    args[1] = str_lit(&v);
+                } else if self.rng.chance(1, 3) {
                     // equal or case-variant arguments make the interesting cases frequent
                     let first = args[0].clone();
                     args[1] = match self.rng.below(4) {
@@ -280,7 +347,8 @@ impl<'a> G15<'a> {
             }
             23 => {
                 let op = *self.rng.pick(&["char-alphabetic?", "char-numeric?", "char-whitespace?", "char-upper-case?", "char-lower-case?", "char-upcase", "char-downcase", "char-foldcase"]);
-                (format!("({} {})", op, chr_lit(self.rand_char())), "char-predicate/case")
+                let c = if self.rng.chance(1, 2) { self.rand_char() } else { self.property_char() };
+                (format!("({} {})", op, chr_lit(c)), "char-predicate/case")
             }
             _ => {
                 let n = 2 + self.rng.usize(2);
@@ -289,6 +357,10 @@ impl<'a> G15<'a> {
                     args[1] = args[0];
                 }
                 if self.rng.chance(1, 3) {
+                    if let Some(cl) = FOLD_CLASSES.iter().find(|cl| cl.contains(&args[0])) {
+                        args[1] = cl[self.rng.usize(cl.len())];
+                    }
+                } else if self.rng.chance(1, 3) {
                     // a case variant of the first
                     let c = args[0];
                     let up: Vec<char> = c.to_uppercase().collect();
